@@ -14,6 +14,7 @@ import (
 	"perkeep.org/pkg/blob"
 	"perkeep.org/pkg/blobserver"
 	"perkeep.org/pkg/blobserver/encrypt"
+	"perkeep.org/pkg/blobserver/memory"
 	"perkeep.org/pkg/vos"
 	"perkeep.org/pkg/vsync"
 
@@ -309,6 +310,20 @@ func scenarios() []*sched.Config {
 				continue
 			}
 			out = append(out, scenario(sp, p, bound))
+		}
+		if sp.Name == "memory" {
+			// perkeep's memory store in its size-capped mode, capped at exactly the size of the
+			// universe: with correct byte accounting nothing is ever evicted, so it must behave
+			// like the plain map; concurrent receives of the same new blob must count it once
+			total := int64(0)
+			for _, b := range c14prog.Universe {
+				total += int64(len(b.Data))
+			}
+			capped := &bk.Spec{Name: "memory-cache-capped-at-universe-size", Removes: true, Build: func(e *bk.Env) (blobserver.Storage, error) {
+				return memory.NewCache(total), nil
+			}}
+			out = append(out, scenario(capped, c14prog.Program{Name: "recv-a||recv-a||fetch-s (s,k,k2 present)", Init: 14,
+				Clients: [][]c14prog.Op{{{Kind: lin.Recv, Mask: 1}}, {{Kind: lin.Recv, Mask: 1}}, {{Kind: lin.Fetch, Mask: 2}}}}, bound))
 		}
 		if sp.Name == "encrypt" {
 			out = append(out, compactionScenario(sp, 2))
